@@ -191,45 +191,9 @@ func c05Case(c *lib.Ctx, idx uint64) {
 			kind := int(idx/5) % 4
 			var got []byte
 			var werr error
-			wo := lib.Guard(func() {
-				switch kind {
-				case 0:
-					dir := filepath.Join(lib.OutDir(), "work", "C05")
-					os.MkdirAll(dir, 0o755)
-					tf, e := os.CreateTemp(dir, "enc-*.fit")
-					if e != nil {
-						werr = nil
-						got = out
-						return
-					}
-					defer os.Remove(tf.Name())
-					werr = fit.Encode(tf, f2, archOrder(arch))
-					tf.Close()
-					got, _ = os.ReadFile(tf.Name())
-				case 1:
-					pre := []byte("earlier content of the buffer")
-					buf := bytes.NewBuffer(append([]byte{}, pre...))
-					werr = fit.Encode(buf, f2, archOrder(arch))
-					b := buf.Bytes()
-					if len(b) >= len(pre) && bytes.Equal(b[:len(pre)], pre) {
-						got = b[len(pre):]
-					} else {
-						got = append([]byte("<earlier content overwritten>"), b...)
-					}
-				case 2:
-					var buf bytes.Buffer
-					bw := bufio.NewWriterSize(&buf, 64)
-					werr = fit.Encode(bw, f2, archOrder(arch))
-					bw.Flush()
-					got = buf.Bytes()
-				default:
-					sw := &seekWriter{}
-					werr = fit.Encode(sw, f2, archOrder(arch))
-					got = sw.data
-				}
-			})
+			wo := lib.Guard(func() { got, werr = encodeInto(kind, f2, archOrder(arch), out) })
 			c.Eval()
-			kinds := []string{"*os.File", "*bytes.Buffer holding earlier data", "*bufio.Writer", "writer with Seek/WriteAt/WriteString/ReadFrom"}
+			kinds := writerKinds
 			if wo.Panicked {
 				c.Violation(out, "Encode into a %s panicked: %s", kinds[kind], wo.Panic)
 				return
@@ -256,6 +220,48 @@ func c05Case(c *lib.Ctx, idx uint64) {
 		c.Nontrivial(out)
 	}
 	c.Sample("file", 2, map[string]interface{}{"file_type": ft, "arch": arch, "bytes": len(out), "definitions": ndef, "data_records": ndata})
+}
+
+var writerKinds = []string{"*os.File", "*bytes.Buffer holding earlier data", "*bufio.Writer", "writer with Seek/WriteAt/WriteString/ReadFrom"}
+
+// encodeInto encodes f into a writer of the given dynamic kind and returns what
+// the destination holds afterwards (fallback, if no scratch file can be made, is
+// given back unchanged).
+func encodeInto(kind int, f *fit.File, order binary.ByteOrder, fallback []byte) (got []byte, werr error) {
+	switch kind {
+	case 0:
+		dir := filepath.Join(lib.OutDir(), "work", "C05")
+		os.MkdirAll(dir, 0o755)
+		tf, e := os.CreateTemp(dir, "enc-*.fit")
+		if e != nil {
+			return fallback, nil
+		}
+		defer os.Remove(tf.Name())
+		werr = fit.Encode(tf, f, order)
+		tf.Close()
+		got, _ = os.ReadFile(tf.Name())
+	case 1:
+		pre := []byte("earlier content of the buffer")
+		buf := bytes.NewBuffer(append([]byte{}, pre...))
+		werr = fit.Encode(buf, f, order)
+		b := buf.Bytes()
+		if len(b) >= len(pre) && bytes.Equal(b[:len(pre)], pre) {
+			got = b[len(pre):]
+		} else {
+			got = append([]byte("<earlier content overwritten>"), b...)
+		}
+	case 2:
+		var buf bytes.Buffer
+		bw := bufio.NewWriterSize(&buf, 64)
+		werr = fit.Encode(bw, f, order)
+		bw.Flush()
+		got = buf.Bytes()
+	default:
+		sw := &seekWriter{}
+		werr = fit.Encode(sw, f, order)
+		got = sw.data
+	}
+	return got, werr
 }
 
 // remakeFile rebuilds the File of case idx (the generators are deterministic).
